@@ -59,10 +59,40 @@ def flowsTo (x : List ACell) : Option AState → Bool
     | _ => false
   | _ => false
 
-def notBpOffset : Option VCell → Bool
-  | some (.bpOffset _) => false
-  | some _ => true
-  | none => false
+/-- The **destination** operand of MOV / MOVIMM (`store_operand`, run.rs:432-450). `compile.rs` emits
+    `Acc`, a `GlobalEnvSlot` or a `LexicalEnvSlot` there (`compile_symbol_expression`, `compile_define`,
+    `compile_set`, `MOVIMM … acc`), nothing else is accepted:
+    * a `BasePointerOffset` destination is resolved relative to `sp` (sic, run.rs:440), so it could
+      overwrite anything on the stack (`compile_define` / `compile_set` would emit it for a formal that is
+      not in the environment map; no such formal exists, see `harness/src/simstep_progs.rs`);
+    * a `Ptr(p)` destination overwrites heap cell `p` whatever it holds — a lambda's bytecode included;
+    * every other cell is `InvalidBytecode` at run time. -/
+def dstOk : Option VCell → Bool
+  | some .acc => true
+  | some (.globSlot _) => true
+  | some (.lexEnvSlot _) => true
+  | _ => false
+
+/-- The cell that follows an opcode, read as a **source** operand (`load_operand`, run.rs:402-407: a
+    `BasePointerOffset(off)` source reads `stack[bp + off]`). `compile.rs` emits `bp - argc + i + 1` for
+    argument `i` of the current frame only (`compile_symbol_expression`), i.e. `-(argc - 1) ≤ off ≤ 0`:
+    the argument cells `bp - argc + 1 ..= bp`. The verifier demands `off ≤ 0` and procedure code (entry
+    code has no frame of its own, hence no arguments): the cell read is then at or below `bp`, hence — the
+    frame header `bp + 1 ..= bp + 4` being below `sp` — a live cell of the stack. The lower bound needs the
+    lambda's `args.len()`, which is not part of the bytecode: `argNeed` computes the number of argument
+    cells the code addresses; the `bytecode-verifier` stream compares it with `args.len()` of every real
+    lambda object. The check is made on the cell after *every* reachable opcode (`checkAt`), whatever the
+    opcode: only MOV and PUSH load from it, the others never see a `BasePointerOffset` there in real code. -/
+def bpSrcOk (entry : Bool) : Option VCell → Bool
+  | some (.bpOffset off) => !entry && decide (off ≤ 0)
+  | _ => true
+
+/-- the number of argument cells (counted down from `bp`) the `BasePointerOffset` cells of a code object
+    address: `bp + off` with `off ≤ 0` is argument cell number `-off` from the top, so `-off + 1` are needed -/
+def argNeed (bc : List VCell) : Nat :=
+  bc.foldl (fun m c => match c with
+    | .bpOffset off => max m ((-off).toNat + 1)
+    | _ => m) 0
 
 /-- the local typing rule of one instruction -/
 def checkOp (bc : List VCell) (tm : TypeMap) (entry : Bool) (o : Nat) (st : AState) (op : Op) : Bool :=
@@ -77,10 +107,9 @@ def checkOp (bc : List VCell) (tm : TypeMap) (entry : Bool) (o : Nat) (st : ASta
     match (bc[o + 1]? : Option VCell) with
     | some (.ptr t) => flowsTo x (stateAt tm t) && flowsTo x (stateAt tm (o + 2))
     | _ => false
-  -- MOV / MOVIMM: a `BasePointerOffset` *destination* is rejected: `store_operand` resolves it
-  -- relative to `sp` (run.rs:436), so it could overwrite anything; the compiler never emits it
-  | .mov, .body x => notBpOffset bc[o + 2]? && flowsTo x (stateAt tm (o + 3))
-  | .movImm, .body x => notBpOffset bc[o + 2]? && flowsTo x (stateAt tm (o + 3))
+  -- MOV / MOVIMM: the destination is `acc`, a global slot or an environment slot (`dstOk`)
+  | .mov, .body x => dstOk bc[o + 2]? && flowsTo x (stateAt tm (o + 3))
+  | .movImm, .body x => dstOk bc[o + 2]? && flowsTo x (stateAt tm (o + 3))
   | .push, .body x => flowsTo (.any :: x) (stateAt tm (o + 2))
   | .pushImm, .body x =>
     match (bc[o + 1]? : Option VCell) with
@@ -103,7 +132,7 @@ def checkAt (bc : List VCell) (tm : TypeMap) (entry : Bool) (o : Nat) : Bool :=
   | none => true
   | some st =>
     match (bc[o]? : Option VCell) with
-    | some (.opcode op) => checkOp bc tm entry o st op
+    | some (.opcode op) => bpSrcOk entry bc[o + 1]? && checkOp bc tm entry o st op
     | _ => false
 
 def initState (entry : Bool) : AState := if entry then .body [] else .pre
@@ -150,6 +179,8 @@ def scanOne (bc : List VCell) (entry : Bool) (s : Scan) : Except Reject Scan :=
     let h := x.length
     match (bc[o]? : Option VCell) with
     | some (.opcode op) =>
+      if !bpSrcOk entry bc[o + 1]? then
+        .error ⟨o, "bp-relative source operand above the frame base, or in entry code"⟩ else
       match op with
       | .jmp =>
         match (bc[o + 1]? : Option VCell) with
@@ -164,8 +195,8 @@ def scanOne (bc : List VCell) (entry : Bool) (s : Scan) : Except Reject Scan :=
           else .ok (s.emit (.body x) 2 (some x) [(t, x)] h)
         | _ => .error ⟨o, "jnt: operand is not an offset"⟩
       | .mov | .movImm =>
-        if notBpOffset bc[o + 2]? then .ok (s.emit (.body x) 3 (some x) [] h)
-        else .error ⟨o, "mov: missing or bp-relative destination"⟩
+        if dstOk bc[o + 2]? then .ok (s.emit (.body x) 3 (some x) [] h)
+        else .error ⟨o, "mov: destination is not acc, a global slot or an environment slot"⟩
       | .push => .ok (s.emit (.body x) 2 (some (.any :: x)) [] (h + 1))
       | .pushImm =>
         match (bc[o + 1]? : Option VCell) with
